@@ -171,7 +171,7 @@ MIRI_AT = re.compile(r"-->\s+(/repo/\S+|src/\S+?):(\d+):\d+")
 MIRI_PLAN = {
     "C04": (0.0005, 16, 1500),
     "C05": (0.00005, 16, 1500),
-    "C16": (0.0001, 16, 3600),
+    "C16": (0.0001, 16, 3000),
     "C17": (0.0001, 8, 3600),
 }
 
